@@ -987,7 +987,10 @@ class BindTransceiverResp(SmppMessage):
         custom_codecs: Optional[Dict[str, CodecInfo]] = None,
     ) -> SmppMessage:
         # pylint: disable=unused-argument
-        index: int = pdu.index(NULL, PDU_HEADER_LENGTH)
+        index: int = pdu.find(NULL, PDU_HEADER_LENGTH)
+        if index < 0:
+            # Body is omitted when command_status is not ESME_ROK (SMPP 3.4, section 4.1.2)
+            index = len(pdu)
         system_id: str = pdu[PDU_HEADER_LENGTH:index].decode('ascii')
         index += 1
         sc_interface_version: Optional[int] = None
